@@ -699,7 +699,7 @@ func (bc *boundsCtx) dischargeLocal(n ast.Node, _ []linFact) (bool, string) {
 	// range index variables
 	rangeIdx := map[string]string{} // index var name -> "len(X)"
 	ast.Inspect(r.FI.Decl.Body, func(x ast.Node) bool {
-		if rs, ok := x.(*ast.RangeStmt); ok && rs.Key != nil && posIn(rs.Body, n.Pos()) {
+		if rs, ok := x.(*ast.RangeStmt); ok && rs.Key != nil && within(rs.Body, n) {
 			if id, ok := rs.Key.(*ast.Ident); ok {
 				// the ranged expression must not be assigned in the loop body
 				assigned := false
